@@ -14,8 +14,12 @@ EXTENDS Layout, FiniteSets, TLC, Json, IOUtils
 CONSTANTS Mode, MaxLines, MaxEdits, MaxNonCode, MaxIndent
 
 (* ---------------- abstract universe (mode "mc") ---------------- *)
-Mk(n, ind, c, e) == [id |-> n, indent |-> ind, class |-> c, endin |-> e, tws |-> 0, eol |-> FALSE]
-P0 == [lines |-> <<>>, stack |-> <<0>>, nc |-> 0, instr |-> FALSE, prev |-> "none", hascode |-> FALSE]
+Mk(n, ind, c, e, o) == [id |-> n, indent |-> ind, class |-> c, endin |-> e, open |-> o, tws |-> 0, eol |-> FALSE]
+P0 == [lines |-> <<>>, stack |-> <<0>>, nc |-> 0, instr |-> FALSE, open |-> FALSE, hascode |-> FALSE]
+
+(* how a code line may end: plainly, inside a string (the next line is "instring"), inside a bracket
+   (the next line is "cont") *)
+Ends(room) == IF room THEN {<<FALSE, FALSE>>, <<TRUE, FALSE>>, <<FALSE, TRUE>>} ELSE {<<FALSE, FALSE>>}
 
 Ext(p) ==
   LET n   == Len(p.lines) + 1
@@ -24,27 +28,25 @@ Ext(p) ==
       deeper == IF p.hascode THEN {i \in (top + 1)..MaxIndent : i <= top + 2} ELSE {}
       push(ind) == IF ind > top THEN Append(p.stack, ind) ELSE PopTo(p.stack, ind)
       room == p.nc < MaxNonCode
-      add(l, st, nc, instr, prev, hc) ==
-          [lines |-> Append(p.lines, l), stack |-> st, nc |-> nc, instr |-> instr, prev |-> prev, hascode |-> hc]
+      add(l, st, nc, hc) ==
+          [lines |-> Append(p.lines, l), stack |-> st, nc |-> nc, instr |-> l.endin, open |-> l.open, hascode |-> hc]
   IN IF p.instr
      THEN IF room
-          THEN {add(Mk(n, ind, "instring", e), p.stack, p.nc + 1, e, "instring", p.hascode)
-                  : ind \in {0, top + 1}, e \in BOOLEAN}
+          THEN {add(Mk(n, ind, "instring", e, FALSE), p.stack, p.nc + 1, p.hascode) : ind \in {0, top + 1}, e \in BOOLEAN}
           ELSE {}
-     ELSE {add(Mk(n, ind, "code", e), push(ind), p.nc, e, "code", TRUE)
-             : ind \in levels \cup deeper, e \in (IF room THEN BOOLEAN ELSE {FALSE})}
+     ELSE IF p.open
+     THEN IF room
+          THEN {add(Mk(n, ind, "cont", FALSE, o), p.stack, p.nc + 1, p.hascode) : ind \in {0, top + 2}, o \in BOOLEAN}
+          ELSE {}
+     ELSE {add(Mk(n, ind, "code", eo[1], eo[2]), push(ind), p.nc, TRUE) : ind \in levels \cup deeper, eo \in Ends(room)}
           \cup (IF room THEN
-                  {add(Mk(n, ind, "blank", FALSE), p.stack, p.nc + 1, FALSE, "blank", p.hascode) : ind \in {0, 3}}
-                  \cup {add(Mk(n, ind, "comment", FALSE), p.stack, p.nc + 1, FALSE, "comment", p.hascode)
-                          : ind \in {0, top, top + 1}}
-                  \cup (IF p.prev \in {"code", "cont"}
-                        THEN {add(Mk(n, top + 1, "cont", FALSE), p.stack, p.nc + 1, FALSE, "cont", p.hascode)}
-                        ELSE {})
+                  {add(Mk(n, ind, "blank", FALSE, FALSE), p.stack, p.nc + 1, p.hascode) : ind \in {0, 3}}
+                  \cup {add(Mk(n, ind, "comment", FALSE, FALSE), p.stack, p.nc + 1, p.hascode) : ind \in {0, top, top + 1}}
                 ELSE {})
 
 RECURSIVE Partial(_)
 Partial(n) == IF n = 0 THEN {P0} ELSE UNION {Ext(p) : p \in Partial(n - 1)}
-Universe == UNION {{p.lines : p \in {q \in Partial(n) : ~q.instr /\ q.hascode}} : n \in 1..MaxLines}
+Universe == UNION {{p.lines : p \in {q \in Partial(n) : ~q.instr /\ ~q.open /\ q.hascode}} : n \in 1..MaxLines}
 
 (* ---------------- real abstractions (mode "emit") ---------------- *)
 Docs == IF Mode = "emit" THEN JsonDeserialize(IOEnv.DOCS_FILE) ELSE <<>>
